@@ -291,8 +291,70 @@ func runC19EmptyMessage(c *Ctx) {
 	}
 }
 
+// runC19GetClassified: C19.6 (seed C19h).  The Connect unary POST form does not accept GET (method
+// resolution answers 405 for it).  In the request classifier, every return of a client protocol
+// that does not allow GET - under evidence that the request is a Connect unary one - lies on a
+// path that knows the HTTP method is not GET; otherwise a valid GET of a side-effect-free method
+// that happens to carry a Content-Type header is rejected instead of decoded.
+func runC19GetClassified(c *Ctx) {
+	p := c.P
+	c.Rule("C19.6", "the classifier selects the Connect POST form only where it knows the request is not a GET", 1)
+	cl := p.MustFunc("classifyRequest")
+	allowsGet := p.Iface("clientProtocolAllowsGet")
+	post := p.MustNamed("connectUnaryPostClientProtocol")
+	if allowsGet != nil && (types.Implements(post, allowsGet) || types.Implements(types.NewPointer(post), allowsGet)) {
+		fatalf("anchor=connectUnaryPostClientProtocol now allows GET: rule C19.6 no longer applies")
+	}
+	paths, ok := EnumPaths(cl.Blocks[0], nil, IsReturn, 0)
+	if !ok {
+		c.Unknown("C19.6", FuncName(cl), "post-form-not-for-get", cl.Pos(), "too many paths")
+		return
+	}
+	n, bad := 0, 0
+	for _, cp := range paths {
+		rv := ReturnValues(cp.End.(*ssa.Return))
+		if len(rv) == 0 {
+			continue
+		}
+		rvv := resolveVal(cp.Deref(rv[0]), cp.Blocks)
+		if mi, isMI := rvv.(*ssa.MakeInterface); isMI {
+			rvv = mi.X
+		}
+		if !types.Identical(rvv.Type(), post) {
+			continue
+		}
+		n++
+		knows := false
+		for cond, truth := range cp.Truth {
+			b, isB := cond.(*ssa.BinOp)
+			if !isB || (b.Op != token.EQL && b.Op != token.NEQ) {
+				continue
+			}
+			f := LoadedField(b.X)
+			if f == nil || N(f) != "Method" {
+				continue
+			}
+			s2, isS := ConstString(b.Y)
+			if !isS {
+				continue
+			}
+			eq := (b.Op == token.EQL) == truth
+			if s2 == "GET" && !eq || s2 == "POST" && eq {
+				knows = true
+			}
+		}
+		if !knows {
+			bad++
+		}
+	}
+	c.Check(bad == 0 && n > 0, "C19.6", FuncName(cl), "post-form-not-for-get", cl.Pos(),
+		"every return of the POST-only Connect form lies on a path that knows the method is not GET ("+itoa(n)+" paths)",
+		itoa(bad)+" path(s) classify a request as Connect unary POST without knowing that its method is not GET: a GET (valid for side-effect-free methods) that carries a Content-Type header is then answered 405 instead of being decoded from the query string")
+}
+
 func runC19rest(c *Ctx) {
 	defer runC19EmptyMessage(c)
+	defer runC19GetClassified(c)
 	p := c.P
 	nse := noSideEffectsConst(p)
 	// ---------------------------------------------------------------- C19.2
@@ -534,6 +596,39 @@ func runC19rest(c *Ctx) {
 	c.Rule("C19.4", "the parsed query of the client's request is kept on first use (later URL rewriting cannot change what a GET message decodes to)", 2)
 	qv := p.MustFunc("(*operation).queryValues")
 	qvF := p.MustField("operation", "queryVars")
+	// (defect D66) ... and the first use comes before the rewriting: every store to the request's
+	// URL.RawQuery at request time is preceded, on every path from the function's entry, by a call
+	// of the accessor - the classifier primes the kept parse only for some requests
+	{
+		nSt := 0
+		for _, fn := range SortedFuncs(p.RequestTimeReach()) {
+			if !p.inScope(fn) {
+				continue
+			}
+			ForEachInstr(fn, func(in ssa.Instruction) {
+				st, ok := in.(*ssa.Store)
+				if !ok {
+					return
+				}
+				fa, ok := st.Addr.(*ssa.FieldAddr)
+				if !ok || N(FieldOfAddr(fa)) != "RawQuery" || !isNamed(fa.X.Type().(*types.Pointer).Elem(), "net/url", "URL") {
+					return
+				}
+				nSt++
+				isAcc := func(x ssa.Instruction) bool {
+					ci, ok := x.(ssa.CallInstruction)
+					return ok && ci.Common().StaticCallee() == qv
+				}
+				found, path := PathQuery{Target: func(x ssa.Instruction) bool { return x == in }, Avoid: isAcc}.Search(fn, nil)
+				c.Check(!found, "C19.4", FuncName(fn), "query-parsed-before-rewrite", st.Pos(),
+					"the client's query string has been parsed (and kept) on every path before URL.RawQuery is overwritten",
+					"URL.RawQuery is overwritten on a path that has not parsed the client's query yet ("+witnessString(p, path)+"): the query is parsed lazily, so a later use (completing the request message when the backend reads the body) sees the backend's query - the client's parameters are silently dropped")
+			})
+		}
+		if nSt == 0 {
+			c.Bad("C19.4", "request-time code", "query-parsed-before-rewrite", token.NoPos, "no store to URL.RawQuery found: shape changed")
+		}
+	}
 	nRet := 0
 	ForEachInstr(qv, func(in ssa.Instruction) {
 		ret, ok := in.(*ssa.Return)
